@@ -322,7 +322,8 @@ def build_ml(name, srcs, packages=()):
 
             def inc(m):
                 return open(os.path.join(ROOT, "ocaml", m.group(1))).read()
-            txt = re.sub(r"\(\*INCLUDE ([A-Za-z0-9_.]+)\*\)", inc, txt)
+            for _ in range(4):
+                txt = re.sub(r"\(\*INCLUDE ([A-Za-z0-9_.]+)\*\)", inc, txt)
             with open(q, "w") as f:
                 f.write(txt)
             mli = p[:-3] + ".mli"
